@@ -5,6 +5,7 @@ mod edit_props;
 mod refcomp;
 mod cnf_props;
 mod cli_props;
+mod shifted_props;
 mod common;
 mod conc_props;
 mod core_props;
